@@ -13,8 +13,16 @@ import (
 	"verif/internal/ev"
 )
 
-// Keys draws a pool of n distinct keys in one of several shapes (one pool in six also holds the empty key).
-func Keys(t *rapid.T, minN, maxN int) [][]byte {
+// Keys draws a pool of n distinct keys in one of several shapes, inside the
+// service's documented key limits (1..4096 bytes): usable for every API.
+func Keys(t *rapid.T, minN, maxN int) [][]byte { return keys(t, minN, maxN, false) }
+
+// KeysWide is Keys for the EMBEDDED API, which has no key limit of its own:
+// one pool in six also holds the zero-length key, and the "huge" shape may
+// hold one key longer than a physical log record.
+func KeysWide(t *rapid.T, minN, maxN int) [][]byte { return keys(t, minN, maxN, true) }
+
+func keys(t *rapid.T, minN, maxN int, wide bool) [][]byte {
 	n := rapid.IntRange(minN, maxN).Draw(t, "nkeys")
 	shape := rapid.SampledFrom([]string{"ascii", "ascii", "binary", "prefixchain", "longprefix", "adjacent", "huge", "composite"}).Draw(t, "keyshape")
 	seen := map[string]bool{}
@@ -78,7 +86,7 @@ func Keys(t *rapid.T, minN, maxN int) [][]byte {
 	case "huge":
 		add(bytes.Repeat([]byte{'z'}, 4096))
 		add(append(bytes.Repeat([]byte{'z'}, 4095), 'a'))
-		if rapid.Bool().Draw(t, "key_beyond_one_log_record") {
+		if wide && rapid.Bool().Draw(t, "key_beyond_one_log_record") {
 			// the embedded API has no key limit of its own (4096 is the service's):
 			// the log lets a key span fragments, the table format stores key
 			// lengths in 16 bits. One key longer than a physical log record.
@@ -97,7 +105,7 @@ func Keys(t *rapid.T, minN, maxN int) [][]byte {
 	}
 	// the zero-length key: the embedded API accepts it (put, get, delete, scan,
 	// flush and reopen work with it on the unchanged tree), so it is an input
-	if rapid.IntRange(0, 5).Draw(t, "emptykey") == 0 && !seen[""] {
+	if wide && rapid.IntRange(0, 5).Draw(t, "emptykey") == 0 && !seen[""] {
 		seen[""] = true
 		out = append(out, []byte{})
 	}
@@ -194,7 +202,7 @@ func DefaultWeights() map[string]int {
 
 // Program draws a complete program.
 func Program(t *rapid.T, o ProgOpts) drive.Program {
-	p := drive.Program{Cfg: Config(t), Keys: Keys(t, 4, 16)}
+	p := drive.Program{Cfg: Config(t), Keys: KeysWide(t, 4, 16)}
 	p.Steps = Steps(t, &p, o)
 	return p
 }
